@@ -7,7 +7,7 @@ REPO=${1:-/repo}
 S=$(mktemp -d /tmp/rt_XXXXXX)
 rsync -a --exclude _build --exclude .git "$REPO"/ "$S"/
 ( cd "$S" && cmake -G Ninja -B _build >/dev/null 2>&1 && cmake --build _build -j16 >"$S"/build.log 2>&1 ) || { echo "BUILD FAILED"; tail -20 "$S"/build.log; rm -rf "$S"; exit 2; }
-( cd "$S"/_build && ctest -j8 --timeout 900 >"$S"/ctest.log 2>&1 ); rc=$?
+( cd "$S"/_build && ctest -j8 --timeout ${RT_TIMEOUT:-900} >"$S"/ctest.log 2>&1 ); rc=$?
 # bidib_parallel_tests is timing-sensitive on a loaded machine (its own write callback overruns a 128-byte test buffer when
 # the auto-flush thread is starved): a failed binary is re-run alone, up to 3 times, before the suite counts as failed
 for try in 1 2 3; do
